@@ -19,6 +19,9 @@
                                               index in <slot>:
                                               used= pos= ltid= maxoid= how= n= ixfnv= len= fnv= | err:<kind>
     sanity <slot> <k> <nb>                  → ltid=<n> | none | err:<kind>
+    api <ro> <op> <op> …                    → ev=<number of fs events> <out> <out> …   (a session of public
+                                              calls on a freshly opened instance; out = ok | ReadOnly |
+                                              StorageTransaction)
 -/
 import ZodbModel.DriverLib
 import ZodbModel.IndexCache
@@ -104,9 +107,32 @@ def parseIdx (s : String) : Option Index :=
       pure (k, v)
     | _ => none
 
+def apiOfString : String → Option ApiOp
+  | "load" => some .load | "loadBefore" => some .loadBefore | "loadSerial" => some .loadSerial
+  | "history" => some .history | "iterator" => some .iterator
+  | "lastTransaction" => some .lastTransaction | "getTid" => some .getTid | "getSize" => some .getSize
+  | "undoLog" => some .undoLog | "lastInvalidations" => some .lastInvalidations
+  | "record_iternext" => some .recordIternext | "isReadOnly" => some .isReadOnly | "len" => some .len
+  | "supportsUndo" => some .supportsUndo | "store" => some .store | "deleteObject" => some .deleteObject
+  | "restore" => some .restore | "undo" => some .undo | "new_oid" => some .newOid | "pack" => some .pack
+  | "tpc_begin" => some .tpcBegin | "tpc_vote" => some .tpcVote | "tpc_finish" => some .tpcFinish
+  | "tpc_abort" => some .tpcAbort | "close" => some .close
+  | _ => none
+
+def outStr : ApiOut → String
+  | .ok => "ok"
+  | .readOnly => "ReadOnly"
+  | .storageTransaction => "StorageTransaction"
+
 def step (s : DS) (toks : List String) : DS × String :=
   match toks with
   | ["reset"] => ({}, "ok")
+  | "api" :: ro :: ops =>
+    match ro.toNat?, ops.mapM apiOfString with
+    | some ro, some ops =>
+      let (outs, evs) := runApi [] (filePos s.cs) (indexOf s.cs) { ro := ro != 0 } ops
+      (s, "ev=" ++ toString evs.length ++ " " ++ joinWith " " (outs.map fun oo => outStr oo.2))
+    | _, _ => (s, "bad-op")
   | ["begin", tid, st, u, d, e] =>
     match natOfHex tid, st.toNat?, parseBytes u, parseBytes d, parseBytes e with
     | some tid, some st, some u, some d, some e =>
